@@ -19,7 +19,7 @@ import (
 
 func init() {
 	seqChecks["c10"] = &seqCheck{run: runC10, replay: replayC10,
-		rule: "all ordered pairs (absent included) of collections of length<=4 over {1,2,3}, of collections of length<=3 over {1,'x',ref,softref,data}, and of models over keys {a,b,c} with values {absent,1,'x',ref,data}; all mutation histories of length<=3 over ids {1,2}; x configuration {no transformer, IDTransformer, value-dependent rid, transformer failing on one value, transformer hiding one value as not found, empty rid, one IDTransformer shared with a second handler} x default {none, set}; mutations go through the real mockstore -> OnChange -> store handler -> events; a reference RES client applies the events to the pre-mutation get and must equal a fresh get; distinct = distinct (configuration, before, after, event list)"}
+		rule: "all ordered pairs (absent included) of collections of length<=4 over {1,2,3}, of collections of length<=3 over {1,'x',ref,softref,data}, and of models over keys {a,b,c} with values {absent,1,'x',ref,data}; rewrites of 300-item collections (with / without common head and tail); all mutation histories of length<=3 over ids {1,2}; x configuration {no transformer, IDTransformer, value-dependent rid, transformer failing on one value, transformer hiding one value as not found, empty rid, one IDTransformer shared with a second handler} x default {none, set}; mutations go through the real mockstore -> OnChange -> store handler -> events; a reference RES client applies the events to the pre-mutation get and must equal a fresh get; distinct = distinct (configuration, before, after, event list)"}
 }
 
 type c10Cfg struct {
@@ -39,6 +39,22 @@ func parseC10Cfg(s string) c10Cfg {
 func c10Parse(j string) interface{} {
 	if j == "" {
 		return nil
+	}
+	if strings.HasPrefix(j, "@seq(") {
+		// @seq(h,n,base,t): h head items (7), the n numbers base..base+n-1, t tail items (9): a large collection
+		var h, n, base, t int
+		fmt.Sscanf(j, "@seq(%d,%d,%d,%d)", &h, &n, &base, &t)
+		out := []interface{}{}
+		for i := 0; i < h; i++ {
+			out = append(out, 7.0)
+		}
+		for i := 0; i < n; i++ {
+			out = append(out, float64(base+i))
+		}
+		for i := 0; i < t; i++ {
+			out = append(out, 9.0)
+		}
+		return out
 	}
 	var v interface{}
 	if err := json.Unmarshal([]byte(j), &v); err != nil {
@@ -204,13 +220,16 @@ func c10Batch(cfg c10Cfg, cases []c10Case, emit func(cs c10Case, desc string), c
 		vsched.Go("serve", func() { w.s.Serve(w.conn) })
 		vsched.Recv(served)
 		if w.warm != nil {
-			wt := w.warm.Write("w")
-			if cfg.Type == "collection" {
-				wt.Create([]interface{}{1.0})
-			} else {
-				wt.Create(map[string]interface{}{"a": 1.0})
+			// the other handler's store changes an id of its own and the very ids the handler under test will use
+			for _, id := range []string{"w", "1", "2"} {
+				wt := w.warm.Write(id)
+				if cfg.Type == "collection" {
+					wt.Create([]interface{}{1.0})
+				} else {
+					wt.Create(map[string]interface{}{"a": 1.0})
+				}
+				wt.Close()
 			}
-			wt.Close()
 			vsched.AwaitQuiescence()
 		}
 		for _, cs := range cases {
@@ -435,6 +454,21 @@ func runC10(c *seqCtx) {
 				}
 			}
 			batch(cfg, rc)
+		}
+		if cfg.Type == "collection" && (cfg.Trans == "id" || cfg.Trans == "none") {
+			// large rewrites: 300 differing items on both sides (a 90 000-cell comparison), with and without a
+			// common head and tail, and a rotation by 150
+			var lc []c10Case
+			for _, h := range []int{0, 1} {
+				for _, t := range []int{0, 2} {
+					b := fmt.Sprintf("@seq(%d,300,1000,%d)", h, t)
+					for _, a := range []string{fmt.Sprintf("@seq(%d,300,5000,%d)", h, t), fmt.Sprintf("@seq(%d,300,1150,%d)", h, t), fmt.Sprintf("@seq(%d,0,0,%d)", h, t)} {
+						lc = append(lc, c10Case{Cfg: cfg, Init: map[string]string{"1": b}, Steps: []c10Step{{"1", a}}, Watch: "1"})
+						lc = append(lc, c10Case{Cfg: cfg, Init: map[string]string{"1": a}, Steps: []c10Step{{"1", b}}, Watch: "1"})
+					}
+				}
+			}
+			batch(cfg, lc)
 		}
 		// histories of <=3 mutations over ids {1,2}
 		small := []string{"", "[1]", "[2,1]"}
